@@ -88,6 +88,18 @@ def write_set(d, names, tag, order=None):
         f.write("decoy")
     with open(os.path.join(d, "helper.j2"), "w") as f:
         f.write("%s:helper" % tag)
+    # look-alikes of class names (left-over copies, fragments, other case): only the exact "<Class>.j2" names a class
+    rr = random.Random(repr(sorted(names)))          # the same set of names always gets the same look-alikes
+    for c in rr.sample(UNIVERSE, 4) + sorted(names)[:2]:
+        for pat in rr.sample(["%s.old.j2", "%s.inc.j2", "%s.v2.j2", "%sx.j2", "x%s.j2", "%s.j2.bak", "%s.txt", "%s.j2.j2", "_%s.j2"], 3):
+            fn = pat % c
+            if fn[:-3] not in UNIVERSE:
+                with open(os.path.join(d, fn), "w") as f:
+                    f.write("DECOY:%s" % fn)
+        low = c.lower() + ".j2"
+        if low[:-3] not in names and not os.path.exists(os.path.join(d, low)):
+            with open(os.path.join(d, low), "w") as f:
+                f.write("DECOY:%s" % low)
 
 
 def observe(loader, env, cls):
